@@ -1,7 +1,7 @@
 SPECIFICATION Spec
 CONSTANTS
   MaxN = 4
-  BoxStride = 3
+  BoxStride = 4
   CatStride = 4
   PairStride = 16
   ShapeFrom = "named dims"
